@@ -212,6 +212,42 @@ pub struct TraceCase {
     /// so the results are the same; components that read the header on their own (filters, dispatch hashers) must agree
     #[serde(default)]
     pub frag: u16,
+    /// IPv4 only: IP options written into the packets after they were built. 0 = none, 1 = the same 4-byte option (router alert) on
+    /// every packet, 2 = on every other packet of each connection (the header length varies inside one flow), 3 = an 8-byte option whose
+    /// content changes from packet to packet. Analyzers report the same payload-level results; components that find the TCP header on their
+    /// own (filters, dispatch hashers) must follow the header length
+    #[serde(default)]
+    pub ipopt: u8,
+}
+
+/// insert `opts` (a multiple of 4 bytes) behind the fixed IPv4 header at `off`, fixing IHL, total length and header checksum
+pub fn insert_ip_options(f: &mut Vec<u8>, off: usize, opts: &[u8]) {
+    if f.len() < off + 20 || f[off] >> 4 != 4 || f[off] & 0x0f != 5 || opts.len() % 4 != 0 {
+        return;
+    }
+    let total = u16::from_be_bytes([f[off + 2], f[off + 3]]) as usize + opts.len();
+    if total > 65535 {
+        return;
+    }
+    let tail = f.split_off(off + 20);
+    f.extend_from_slice(opts);
+    f.extend_from_slice(&tail);
+    f[off] = 0x40 | (5 + opts.len() / 4) as u8;
+    f[off + 2] = (total >> 8) as u8;
+    f[off + 3] = total as u8;
+    f[off + 10] = 0;
+    f[off + 11] = 0;
+    let ihl = 20 + opts.len();
+    let mut sum = 0u32;
+    for k in (0..ihl).step_by(2) {
+        sum += u16::from_be_bytes([f[off + k], f[off + k + 1]]) as u32;
+    }
+    while sum >> 16 != 0 {
+        sum = (sum & 0xffff) + (sum >> 16);
+    }
+    let c = !(sum as u16);
+    f[off + 10] = (c >> 8) as u8;
+    f[off + 11] = c as u8;
 }
 
 impl TraceCase {
@@ -224,6 +260,25 @@ impl TraceCase {
                 for p in l.iter_mut() {
                     if p.frame.len() >= 14 {
                         p.frame[..12].copy_from_slice(&pair);
+                    }
+                }
+            }
+        }
+        if self.ipopt % 4 != 0 && self.link != Link::Null {
+            let off = if self.link == Link::Ether { 14 } else { 0 };
+            for l in lists.iter_mut() {
+                for (n, p) in l.iter_mut().enumerate() {
+                    match self.ipopt % 4 {
+                        1 => insert_ip_options(&mut p.frame, off, &[0x94, 0x04, 0x00, 0x00]),
+                        2 => {
+                            if n % 2 == 1 {
+                                insert_ip_options(&mut p.frame, off, &[0x94, 0x04, 0x00, 0x00])
+                            }
+                        }
+                        _ => {
+                            let k = (n as u32).wrapping_mul(0x9e37_79b9) ^ 0x5bd1_e995;
+                            insert_ip_options(&mut p.frame, off, &[0x44, 0x08, 0x05, 0x00, (k >> 24) as u8, (k >> 16) as u8, (k >> 8) as u8, k as u8])
+                        }
                     }
                 }
             }
@@ -361,7 +416,7 @@ pub fn conn(allow_h2: bool) -> impl Strategy<Value = Conn> {
 
 /// 1..max connections with pairwise distinct (and non-reversed) 4-tuples and pairwise distinct TSvals
 pub fn trace_case(max_conns: usize, allow_h2: bool) -> impl Strategy<Value = TraceCase> {
-    (vec(conn(allow_h2), 1..=max_conns), vec(any::<u16>(), 0..60), prop_oneof![4 => Just(Link::Ether), 1 => Just(Link::Raw)], prop_oneof![3 => Just(0u8), 1 => Just(1u8), 1 => Just(2u8)], prop_oneof![3 => Just(0u8), 1 => Just(1u8), 1 => Just(2u8)], prop_oneof![8 => Just(0u16), 1 => Just(1u16), 1 => Just(185u16), 1 => Just(0x1fffu16)]).prop_map(|(conns, schedule, link, macs, wire, frag)| {
+    (vec(conn(allow_h2), 1..=max_conns), vec(any::<u16>(), 0..60), prop_oneof![4 => Just(Link::Ether), 1 => Just(Link::Raw)], prop_oneof![3 => Just(0u8), 1 => Just(1u8), 1 => Just(2u8)], prop_oneof![3 => Just(0u8), 1 => Just(1u8), 1 => Just(2u8)], prop_oneof![8 => Just(0u16), 1 => Just(1u16), 1 => Just(185u16), 1 => Just(0x1fffu16)], prop_oneof![5 => Just(0u8), 1 => Just(1u8), 1 => Just(2u8), 1 => Just(3u8)]).prop_map(|(conns, schedule, link, macs, wire, frag, ipopt)| {
         let mut seen = std::collections::BTreeSet::new();
         let mut kept: Vec<Conn> = vec![];
         for (i, mut c) in conns.into_iter().enumerate() {
@@ -377,6 +432,6 @@ pub fn trace_case(max_conns: usize, allow_h2: bool) -> impl Strategy<Value = Tra
             // raw-IP frames must not look like Ethernet to the Ethernet-first decoder: the address pool guarantees it
             kept.push(c);
         }
-        TraceCase { conns: kept, schedule, link, macs, wire, frag }
+        TraceCase { conns: kept, schedule, link, macs, wire, frag, ipopt }
     })
 }
